@@ -32,7 +32,10 @@ P = {'id': 'C19',
               'ro_build_crash_safe',
               'ro_builder_whole_blocks_refuted',
               'mmio_roundtrip',
-              'mmio_history_inv'],
+              'mmio_history_inv',
+              'crash_setlen_compose',
+              'mv_units_crash_safe',
+              'mv_traced_history_crash_safe'],
  'coq_deps': ['C03'],
  'trusted': ['modelled (M+S): src/memory/mmap_vec.rs MmapVecHeader::validate, open/validate_file_length, len/get, the file image sync() writes, the '
              'file operations sync()/resize_to_capacity issue, and the in-memory operations (push/grow, pop, get_mut, truncate, clear, reserve, '
